@@ -412,3 +412,43 @@ world_insert!(world_t_insert_empty, RAB, first = (), second = none);
 
 // Measured: `Archetypes::clone_from` / `clone` at table level (two archetypes per side, one row)
 // does not fit in 20 GB either (1.9 M program steps); the table level of clone is outside the claim.
+
+// ------------------------------------------------------------------------------------------
+// Archetypes::get_mut_or_insert_new (the table lookup used by Entry::add / Entry::remove) from an
+// empty table: the same component set, given twice in two separate identifier buffers, must land in
+// one archetype, and a later lookup by entity type must find that archetype too.
+// ------------------------------------------------------------------------------------------
+
+macro_rules! table_get_or_insert {
+    ($name:ident, $R:ty, byte = $BYTE:expr, entity = ($($C:ty),*)) => {
+        #[kani::proof]
+        #[kani::unwind(18)]
+        pub fn $name() {
+            let mut archetypes = Archetypes::<$R>::new();
+            let first = {
+                let a = archetypes.get_mut_or_insert_new(ident::<$R>(vec![$BYTE]));
+                ident_ptr(a)
+            };
+            let again = {
+                let a = archetypes.get_mut_or_insert_new(ident::<$R>(vec![$BYTE]));
+                ident_ptr(a)
+            };
+            vassert!(first == again, "the same component set reached twice through the entry path is one archetype");
+            vassert!(archetypes.verif_raw().0.len() == 1, "one table per component set");
+            // SAFETY: the entity type's components are exactly the set named by the identifier byte.
+            let by_type = unsafe { ident_ptr(archetypes.get_mut_or_insert_new_for_entity::<crate::Entity!($($C),*), _>()) };
+            vassert!(by_type == first, "the entity-type path finds the archetype the entry path created");
+            vassert!(archetypes.verif_raw().0.len() == 1, "still one table per component set");
+            let other = {
+                let a = archetypes.get_mut_or_insert_new(ident::<$R>(vec![0]));
+                ident_ptr(a)
+            };
+            vassert!(other != first && archetypes.verif_raw().0.len() == 2, "a different component set gets its own table");
+            kani::cover!(true, "reached end");
+            core::mem::forget(archetypes);
+        }
+    };
+}
+
+table_get_or_insert!(tbl_q_get_or_insert_ab, RAB, byte = 3, entity = (A, B));
+table_get_or_insert!(tbl_t_get_or_insert_b, RAB, byte = 2, entity = (B));
